@@ -78,6 +78,20 @@ fn start_graph(name: &str) -> RefGraph {
             g.add_node(&["U"], &[("k", LV::Int(2))]);
             g.add_node(&["U"], &[("k", LV::Int(3))]);
         }
+        "DEL_OBSTRUCTED_1" | "DEL_OBSTRUCTED_2" | "DEL_OBSTRUCTED_3" => {
+            // three (:A)-[:R]->(:B) pairs; the k-th :A node also has an incoming :S relationship
+            // that the DELETE statements do not name, so a plain DELETE of it must be refused
+            let k: usize = name[name.len() - 1..].parse().unwrap();
+            let mut a_ids = vec![];
+            for i in 0..3 {
+                let a = g.add_node(&["A"], &[("p", LV::Int(i as i64))]);
+                let b = g.add_node(&["B"], &[("p", LV::Int(10 + i as i64))]);
+                g.add_rel(a, b, "R", &[("w", LV::Int(i as i64))]);
+                a_ids.push(a);
+            }
+            let c = g.add_node(&["C"], &[]);
+            g.add_rel(c, a_ids[k - 1], "S", &[]);
+        }
         "MULTI_UNIQUE" => {
             // node 1 holds 100..105 under :W; node 2 is a second :W node with 200..205; node 3+i is a
             // :T node whose value for key k<i> equals node 1's and whose other values are fresh
@@ -185,6 +199,20 @@ fn cases(max_rows: usize) -> Vec<Case> {
         mu("multi_unique_set_props", format!("MATCH (n:W {{tag: 200}}) SET {}", (0..MU_KEYS).map(|j| format!("n.k{j} = {}", if j == i { 100 + j as i64 } else { 300 + j as i64 })).collect::<Vec<_>>().join(", ")));
     }
     mu("multi_unique_set_label_all_rows", "MATCH (n:T) SET n:W".to_string());
+    // --- plain DELETE that must be refused because one of the named nodes keeps a relationship
+    // the statement does not name; the obstructed node sits at every row position
+    for start in ["DEL_OBSTRUCTED_1", "DEL_OBSTRUCTED_2", "DEL_OBSTRUCTED_3"] {
+        for (template, text) in [
+            ("delete_refused_node_and_rel", "MATCH (a:A)-[r:R]->(:B) DELETE a, r"),
+            ("delete_refused_rel_then_node", "MATCH (a:A)-[r:R]->(:B) DELETE r, a"),
+            ("delete_refused_all_three", "MATCH (a:A)-[r:R]->(b:B) DELETE a, r, b"),
+            ("delete_refused_node_only", "MATCH (a:A) DELETE a"),
+            ("delete_refused_two_clauses", "MATCH (a:A)-[r:R]->(b:B) DELETE r DELETE a"),
+            ("delete_refused_set_then_delete", "MATCH (a:A)-[r:R]->(b:B) SET b.q = 1 DELETE a, r"),
+        ] {
+            out.push(Case { template, vals: vec![], fail_at: 0, setup: vec![], start, stmt: dummy.clone(), prefix_stmt: None, single_row: false, text: Some(text.to_string()) });
+        }
+    }
     out
 }
 
@@ -384,7 +412,7 @@ fn main() {
         ctx.cov("rule", "a case = (statement template, row values with the failing value at position k of n, start graph, index/constraint setup), all distinct; non-trivial when the engine returned Err (or panicked), i.e. the before/after comparison actually ran");
         ctx.cov("outcomes", json!(outcomes));
         ctx.cov("exhaustive", true);
-        ctx.cov("bounds", format!("n <= {max_rows} rows, failure at every position k <= n; templates: unwind_create_div, unwind_create_path_div, unwind_merge_set_div, unwind_match_set_div, unwind_create_unique, match_set_div, match_set_unique, match_create_edge_div; multi_unique_* (label :W with six unique constraints; SET label / SET labels / CREATE / CREATE path / MERGE / SET += / SET = / SET items colliding on each key in turn, and MATCH (n:T) SET n:W over all rows)"));
+        ctx.cov("bounds", format!("n <= {max_rows} rows, failure at every position k <= n; templates: unwind_create_div, unwind_create_path_div, unwind_merge_set_div, unwind_match_set_div, unwind_create_unique, match_set_div, match_set_unique, match_create_edge_div; delete_refused_* (plain DELETE naming nodes and relationships where one node keeps an unnamed relationship, at each row position); multi_unique_* (label :W with six unique constraints; SET label / SET labels / CREATE / CREATE path / MERGE / SET += / SET = / SET items colliding on each key in turn, and MATCH (n:T) SET n:W over all rows)"));
         for c in cs.iter().step_by((cs.len() / 4).max(1)).take(4) {
             ctx.sample(json!({"template": c.template, "statement": c.text(), "start": c.start, "setup": c.setup, "fail_at_row": c.fail_at + 1}));
         }
